@@ -86,10 +86,24 @@ def loadOf (out : Str) : Option Load :=
         | none => some .error
         | some e =>
           let resp : Option Nat := match e.resp with
-            | some r => if r.statusCode = 0 then none else (parseRid r.raw).orElse (fun _ => some 0)
+            | some r =>
+              -- a stored response is usable only with an HTTP status code (100..999: what net/http will write)
+              if r.statusCode < 100 ∨ r.statusCode > 999 then none else (parseRid r.raw).orElse (fun _ => some 0)
             | none => none
           some (.record ⟨statusOfNat e.status, resp, e.createdAt, e.expiredAt⟩)
     | _ => none
+
+/-- the store returned a decodable record whose response carries a status code no HTTP response can have -/
+def recordCodeInvalid (out : Str) : Bool :=
+  match out with
+  | 'b' :: 'y' :: 't' :: 'e' :: 's' :: ':' :: h =>
+    match (if h = ['-'] then some [] else unhexL h) with
+    | none => false
+    | some data =>
+      match Codec.decodeEntry trustAll data with
+      | some e => (match e.resp with | some r => r.statusCode ≠ 0 && (r.statusCode < 100 || r.statusCode > 999) | none => false)
+      | none => false
+  | _ => false
 
 /-- the answer a finished request reported: X-Status|Age|body|code -/
 def parseResult (pos : String) : Option (String × String × String × String) :=
@@ -178,6 +192,8 @@ def judgeSched (st0 : SchedSt) (fields : List String) : SchedSt × String :=
           let trip := trip ++ (match so with
             | .record _ => if st.deleted.contains ti.key then " TRIP record_survives" else ""
             | _ => "")
+          -- monitor (C10): a record that cannot be served (its status code is not an HTTP status) is a miss
+          let trip := trip ++ (if pos = "age.enter" ∧ ((unhex out).map recordCodeInvalid).getD false then " TRIP client_error_from_store_fault" else "")
           -- monitor (C07): during the hit-for-pass period of its entry a request is neither queued nor served from cache
           let trip := trip ++ (if inHfp && (pos == "get.registered" || pos == "age.enter") then " TRIP queued_during_hfp" else "")
           if consulted != mconsult then ({ st' with active := false }, s!"DIFF sched get store consulted impl={consulted} model={mconsult}{trip}")
@@ -319,6 +335,10 @@ def judgeSched (st0 : SchedSt) (fields : List String) : SchedSt × String :=
                 ++ (if ti.wokenKind = "cacheable" ∧ ti.wokenBy ≠ some f.rid then " TRIP waiter_not_served" else "")
             if xs = "hit" ∧ age = mAge ∧ body = mBody ∧ code = "200" then cmp { st with s := s1 } t pos "age" trips
             else ({ st with s := s1, active := false }, s!"DIFF sched age model=(hit,{mAge},{mBody}) impl=({xs},{age},{body},{code}){trips}")
+          | some (xs, _, _, _), _ =>
+            -- a request that was being answered from the cache ended in a panic: what the store returned made it
+            -- through validation although it cannot be served (C10)
+            cmp { st with s := s1 } t pos "age" (if xs = "panic" then " TRIP client_error_from_store_fault" else "")
           | _, _ => cmp { st with s := s1 } t pos "age" ""
       | none => (st, "BADLINE sched age")
     | ["tick", d] =>
